@@ -134,8 +134,8 @@ def write_ods(path, assets_rows):
     doc.save()
 
 
-def write_ini(path, assets, layout, methods=None, extra=""):
-    lines = ["[general]", "assets = " + ", ".join(assets), "exchanges = " + ", ".join(EXCHANGES), "holders = " + ", ".join(HOLDERS), ""]
+def write_ini(path, assets, layout, methods=None, extra="", holders=None, exchanges=None):
+    lines = ["[general]", "assets = " + ", ".join(assets), "exchanges = " + ", ".join(exchanges or EXCHANGES), "holders = " + ", ".join(holders or HOLDERS), ""]
     for tab in ("IN", "OUT", "INTRA"):
         lines.append(f"[{SECTION[tab]}]")
         for f, c in layout[tab].items():
@@ -155,6 +155,8 @@ def materialize(scenario, directory, layout=None, structure=None, config_methods
     layout = layout or default_layout()
     rows = {a: sheet_rows(txs, a, layout, (structure or {}).get(a)) for a, txs in scenario["assets"].items()}
     ini, ods = os.path.join(directory, "config.ini"), os.path.join(directory, "input.ods")
-    write_ini(ini, scenario.get("config_assets", sorted(scenario["assets"])), layout, config_methods)
+    hs = sorted({t[k] for txs in scenario["assets"].values() for t in txs for k in ("ho", "to_ho") if k in t} | set(HOLDERS))
+    xs = sorted({t[k] for txs in scenario["assets"].values() for t in txs for k in ("ex", "to_ex") if k in t} | set(EXCHANGES))
+    write_ini(ini, scenario.get("config_assets", sorted(scenario["assets"])), layout, config_methods, holders=hs, exchanges=xs)
     write_ods(ods, rows)
     return ini, ods
